@@ -29,8 +29,13 @@ def _skew3(v):
 def special_array(kind, j):
     """Boundary values (k >= 8): zero / axis vectors, identity and half-turn rotations, slightly
     non-orthonormal matrices, non-unit quaternions.  None when the kind has no special values."""
-    j = int(j) % 4
-    e = 1e-7
+    j = int(j) % 6
+    j0 = j
+    e = 1e-10 if j == 4 else (3e-13 if j == 5 else 1e-7)      # inside / outside validity tolerances
+    if j >= 4 and kind not in ('R2', 'R3', 'T2', 'T3', 'q'):
+        j -= 3
+    if j >= 4 and kind != 'q':
+        j = 3
     if kind in ('v2', 'v3', 'v4', 'v6', 'sv3', 'uv3'):
         n = {'v2': 2, 'v3': 3, 'v4': 4, 'v6': 6, 'sv3': 3, 'uv3': 3}[kind]
         v = np.zeros(n)
@@ -45,7 +50,8 @@ def special_array(kind, j):
         return v
     if kind == 'q':
         return [np.array([1.0, 0, 0, 0]), np.array([0.0, 1.0, 0, 0]), np.array([-1.0, 0, 0, 0]),
-                np.array([0.0, 0, 0, 1.0])][j]
+                np.array([0.0, 0, 0, 1.0]), np.array([1.0 + 1e-10, 0, 0, 0]),
+                np.array([2.0, 0, 0, 0])][j]
     if kind == 'R2':
         return [np.eye(2), np.array([[-1.0, 0], [0, -1.0]]), np.array([[0.0, -1.0], [1.0, 0]]),
                 np.array([[1.0, e], [-e, 1.0]])][j]
@@ -54,13 +60,13 @@ def special_array(kind, j):
                 np.eye(3) + e * np.array([[0, 1.0, 0], [0, 0, 1.0], [1.0, 0, 0]])][j]
     if kind == 'T2':
         T = np.eye(3)
-        T[:2, :2] = special_array('R2', j)
+        T[:2, :2] = special_array('R2', j0)
         if j != 0:
             T[:2, 2] = [1.0, -2.0]
         return T
     if kind == 'T3':
         T = np.eye(4)
-        T[:3, :3] = special_array('R3', j)
+        T[:3, :3] = special_array('R3', j0)
         if j != 0:
             T[:3, 3] = [1.0, -2.0, 0.5]
         return T
